@@ -576,6 +576,47 @@ def run_form(case):
             nseq += 1
     c.traces += nseq
     c.outcomes.add(f"form-call-histories={nseq}")
+    # geometry histories on ONE form object: every sequence (depth <= 4) over {assemble with the fields given, assemble
+    # without arguments, move the mesh points in place and reload the region}; an assembly with the fields given must be that
+    # of a form created on the current geometry (no-argument calls are judged while the geometry is the one the form was
+    # last given: the documented way to pick up a changed region is to pass the fields again)
+    reg = cont.fields[0].region
+    P0 = reg.mesh.points.copy()
+    P1 = P0 + 0.04 * zoo.offarr(case["seed"], 920, P0.shape) * (P0.max(0) - P0.min(0)).min()
+    kwf = dict(v=cont, u=cont) if bilinear else dict(v=cont)
+    fresh = {}
+    for g, Pg in ((0, P0), (1, P1)):
+        reg.mesh.update(points=Pg.copy(), callback=reg.reload)
+        fresh[g] = fem.Form(v=cont, u=cont if bilinear else None)(lambda: wf).assemble().toarray()
+        if arrform is not None:
+            c.cmp(f"geometry{g}/vs-array-form", "Form on the moved mesh vs the equivalent array form", fresh[g], arrform().assemble().toarray())
+    ngeo = 0
+    for depth in (1, 2, 3, 4):
+        for seq in itertools.product("anm", repeat=depth):
+            if seq[-1] == "m":
+                continue
+            reg.mesh.update(points=P0.copy(), callback=reg.reload)
+            Fg = fem.Form(v=cont, u=cont if bilinear else None)(lambda: wf)
+            geo, known = 0, 0
+            for step, op in enumerate(seq):
+                if op == "m":
+                    geo = 1 - geo
+                    reg.mesh.update(points=(P1 if geo else P0).copy(), callback=reg.reload)
+                    continue
+                got = (Fg.assemble(**kwf) if op == "a" else Fg.assemble()).toarray()
+                c.trans += 1
+                if op == "a":
+                    known = geo
+                elif known != geo:
+                    continue
+                e = np.abs(got - fresh[geo]).max() / (1 + np.abs(fresh[geo]).max())
+                if e > 1e-13:
+                    c.bad("geometry-history=" + "".join(seq[: step + 1]), "assembly on a form object after this history (a = fields given, n = no arguments, m = points moved in place + region.reload) differs from a form created on the current geometry", float(e), 0, 1e-13)
+                    break
+            ngeo += 1
+    reg.mesh.update(points=P0.copy(), callback=reg.reload)
+    c.traces += ngeo
+    c.outcomes.add(f"form-geometry-histories={ngeo}")
     Fp = fem.Form(v=cont, u=cont if bilinear else None, parallel=True)(lambda: wf)
     with sched.use_pool(sched.FakePool(3)):
         got = Fp.assemble().toarray()
